@@ -352,3 +352,191 @@ def _register_concrete():
 
 
 _register_concrete()
+
+
+
+# ================================================================== C15: the same views over a TRUNCATED base file
+# The substream content is full[:cut]; nothing is assumed about the addresses lying inside it.
+WF_STRUCT = {
+    "StreamWrapper": "self.end_of_file > 0",
+    "StreamOffset": "self.end_of_file > 0 and self.offset >= 0",
+    "SectorStream": "self.sector_length > 0 and self.end_of_file > 0",
+    "FileStream": "self.sector_length > 0 and self.end_of_file > 0 and self.end_of_file == self.sector_length * len(self.sector_list) "
+                  "and forall(0, len(self.sector_list), lambda k: self.sector_list[k] >= 0)",
+    "MdfStream": "self.sector_length == 2048 and self.end_of_file > 0 and self.end_of_file % 2048 == 0",
+}
+CUT_PROPS = ["C15"]
+
+
+def _mk_cut(name):
+    k = CLASSES[name]
+    cls = k["cls"]
+
+    def common_cut(c):
+        c.self_obj(self_desc(name))
+        c.define("addr", ["i"], k["addr"])
+        c.requires(WF_STRUCT[name], "wf-structure-only")
+        c.requires("0 <= self.position and self.position <= self.end_of_file", "position-in-range")
+        c.define("cut", [], "len(self.substream.content)")
+
+    # when may a sectored read fail?  some byte (for FileStream: some sector of the range) lies beyond the cut
+    if name == "FileStream":
+        beyond = ("exists((self.position) // self.sector_length, len(self.sector_list), "
+                  "lambda k: (self.sector_list[k] + 1) * self.sector_length > cut())")
+        beyond_done = beyond
+    else:
+        beyond = "exists(0, {n}, lambda j: addr(self.position + j) >= cut())"
+        beyond_done = beyond
+    if name in SECTORED:
+        @contract(cls + "._read#cut", props=CUT_PROPS, source_key=SECTOR + "SectorStream._read", proof_only=True)
+        def _r(c):
+            common_cut(c)
+            c.param("size", "int")
+            c.returns(("bytes", "int"))
+            c.requires("0 <= size and self.position + size <= self.end_of_file")
+            # exact bytes or an error - never wrong bytes, never a silent short read
+            c.raises("SectorReadError", beyond.format(n="size"))
+            c.ensures("len(result) == size", "exact-length")
+            c.ensures("forall(0, size, lambda j: addr(self.position + j) < cut() and "
+                      "result[j] == self.substream.content[addr(self.position + j)])", "bytes-are-the-logical-bytes-and-lie-before-the-cut")
+            c.modifies("self.substream.cur")
+            lp = c.loop(0)
+            lp.invariant(
+                "i >= 1", "remaining_size >= 0", "len(result) <= size - remaining_size",
+                "initial_sector_index == self.position // self.sector_length",
+                "implies(remaining_size > 0, self.position + (size - remaining_size) == (initial_sector_index + i) * self.sector_length)",
+                "forall(0, len(result), lambda j: implies(len(result) == size - remaining_size, addr(self.position + j) < cut() and "
+                "result[j] == self.substream.content[addr(self.position + j)]))",
+                "implies(len(result) < size - remaining_size, " + beyond.format(n="size - remaining_size") + ")",
+            )
+            lp.measure("remaining_size")
+            lp.modifies("self.substream.cur")
+
+        @contract(cls + ".read#cut", props=CUT_PROPS, source_key=STREAM + "StreamWrapper.read", proof_only=True)
+        def _rd(c):
+            common_cut(c)
+            c.param("size", "int")
+            c.requires("size >= 0")
+            c.returns(("bytes", "int"))
+            n0 = "imin(size, self.end_of_file - self.position)"
+            c.raises("SectorReadError", beyond.format(n=n0))
+            c.use = {cls + "._read": cls + "._read#cut"}
+            c.ensures(f"len(result) == old({n0})", "length-is-clipped-request")
+            c.ensures("forall(0, len(result), lambda j: result[j] == self.substream.content[addr(old(self.position) + j)])",
+                      "bytes-are-the-logical-bytes")
+            c.ensures("self.position == old(self.position) + len(result)")
+            c.modifies("self.position", "self.true_size", "self.substream.cur")
+    else:
+        @contract(cls + ".read#cut", props=CUT_PROPS, source_key=STREAM + "StreamWrapper.read", proof_only=True)
+        def _rd(c):
+            common_cut(c)
+            c.param("size", "int")
+            c.requires("size >= 0")
+            c.returns(("bytes", "int"))
+            n0 = "imin(size, self.end_of_file - self.position)"
+            c.ensures(f"len(result) <= old({n0})", "never-more-than-requested")
+            c.ensures("forall(0, len(result), lambda j: addr(old(self.position) + j) < cut() and "
+                      "result[j] == self.substream.content[addr(old(self.position) + j)])", "a-prefix-of-the-logical-bytes")
+            c.ensures(f"implies(addr(old(self.position)) + old({n0}) <= cut(), len(result) == old({n0}))",
+                      "complete-when-everything-lies-before-the-cut")
+            c.ensures(f"len(result) == imax(0, imin(old({n0}), cut() - addr(old(self.position))))", "short-exactly-at-the-cut")
+            c.ensures(f"self.position == old(self.position) + old({n0})")
+            c.modifies("self.position", "self.true_size", "self.substream.cur")
+
+
+for _n in ("StreamWrapper", "StreamOffset", "SectorStream", "FileStream", "MdfStream"):
+    _mk_cut(_n)
+
+
+# ================================================================== C11: interleavings on one shared handle (bounded stand-in)
+@contract("bounded:shared_handle_interleavings", props=["C11"], abstract=True)
+def _bi(c):
+    pass
+
+
+def _build_interleave(inputs):
+    import io
+    from smpl_extract.util.fat import FileStream
+    from smpl_extract.util.stream import StreamOffset, StreamWrapper, StreamReversed
+    from smpl_extract.alcohol.mdf import MdfStream
+
+    def make_all(base):
+        fs1 = FileStream(base, 4, [2, 0, 3])
+        fs2 = FileStream(base, 4, [1, 4])
+        views = {
+            "fileA": fs1, "fileB": fs2,
+            "offset_on_fileA": StreamOffset(fs1, 7, 3),
+            "wrapper_on_fileB": StreamWrapper(fs2, 6),
+            "offset_on_base": StreamOffset(base, 9, 5),
+            "reversed_on_fileB": StreamReversed(StreamOffset(fs2, 6, 2), 6, 2),
+        }
+        return {k: views[k] for k in inputs["views"]}
+
+    data = bytes(range(40, 40 + 24))
+
+    def run():
+        # isolated: each view alone on its own handle, its ops in order
+        iso = {}
+        for name in inputs["views"]:
+            v = make_all(io.BytesIO(data))[name]
+            out = []
+            for (who, op, arg) in inputs["ops"]:
+                if who == name:
+                    out.append(_apply(v, op, arg))
+            iso[name] = out
+        shared = make_all(io.BytesIO(data))
+        got = {n: [] for n in inputs["views"]}
+        for (who, op, arg) in inputs["ops"]:
+            got[who].append(_apply(shared[who], op, arg))
+        return {"isolated": iso, "shared": got}
+    return {"call": run, "env": {}}
+
+
+def _apply(v, op, arg):
+    if op == "read":
+        return list(v.read(arg))
+    if op == "seek":
+        return v.seek(arg, 0)
+    return v.tell()
+
+
+def _oracle_interleave(inputs, kind, val, env):
+    if kind != "return":
+        return ["oracle.no-exception-expected"]
+    return [] if val["isolated"] == val["shared"] else ["oracle.interleaved-reads-equal-isolated-reads"]
+
+
+def _small_interleave(tier, seed, shard=(0, 1)):
+    import itertools
+    names = ["fileA", "fileB", "offset_on_fileA", "wrapper_on_fileB", "offset_on_base", "reversed_on_fileB"]
+    per_view_ops = [("read", 2), ("read", 4), ("seek", 2), ("read", 2)]
+    k = 0
+    # a view and its own substream are not independent streams (the substream IS the upper view's handle,
+    # and the contracts say so: "modifies self.substream.cur"); only streams that do not contain one another are paired
+    below = {"offset_on_fileA": "fileA", "wrapper_on_fileB": "fileB", "reversed_on_fileB": "fileB"}
+    indep = lambda a, b: below.get(a) != b and below.get(b) != a
+    pairs = [p for p in itertools.combinations(names, 2) if indep(*p)] + \
+        ([("fileA", "fileB", "offset_on_base"), ("offset_on_fileA", "wrapper_on_fileB", "reversed_on_fileB")] if tier != "quick" else [])
+    for vs in pairs:
+        nops = 3 if len(vs) == 2 else 2
+        seqs = {v: [(v,) + op for op in per_view_ops[:nops]] for v in vs}
+        # all interleavings preserving per-view order
+        slots = [v for v in vs for _ in range(nops)]
+        for perm in set(itertools.permutations(slots)):
+            k += 1
+            if k % shard[1] != shard[0]:
+                continue
+            idx = {v: 0 for v in vs}
+            ops = []
+            for who in perm:
+                ops.append(list(seqs[who][idx[who]]))
+                idx[who] += 1
+            yield {"views": list(vs), "ops": ops}
+
+
+CONCRETE["bounded:shared_handle_interleavings"] = {
+    "build": _build_interleave, "small": _small_interleave, "oracle": _oracle_interleave, "shards": 4,
+    "bound": "every order-preserving interleaving of 3 operations per view (read 2, read 4, seek 2, read 2) for every pair of 6 views "
+             "(two sector-chained files, windows on them, a window on the base, a sample-reversed window) sharing ONE handle; thorough adds two triples",
+    "timeout_s": 5.0,
+}
